@@ -20,18 +20,36 @@ pub fn scenario(subseed: u64, tree: &Tree, small: bool) -> Scenario {
     let mut rng = Rng::new(subseed);
     let dirs = ["syn_rec", "syn_iface"];
     let nthreads = if small { 2 } else { rng.range(2, 3) };
-    let same_dir = rng.chance(5, 6);
+    // threads on the same files contend on the caches and on per-schema data; threads on different
+    // files contend on process-wide tables. Options are mostly shared by all calls of a scenario so
+    // that option-dependent shared state is exercised by several threads at once.
+    let same_dir = rng.chance(1, 2);
     let d0 = if rng.chance(2, 3) { "syn_rec" } else { "syn_iface" };
+    let shared_opts: Value = match rng.below(6) {
+        0 | 1 => json!({"normalization": "rust"}),
+        2 => json!({"normalization": "rust", "deprecation": "deny", "variables_derives": "Debug, Clone"}),
+        3 => json!({"response_derives": "Debug"}),
+        _ => json!({}),
+    };
     let mut threads = vec![];
-    for _ in 0..nthreads {
+    for t in 0..nthreads {
         let n = if !small && rng.chance(1, 4) { 2 } else { 1 };
         let mut calls = vec![];
         for _ in 0..n {
-            let d = if same_dir { d0 } else { *rng.pick(&dirs) };
+            let d = if same_dir { d0 } else { dirs[(t + rng.below(2) * (t / 2)) % 2] };
             let k = *rng.pick(&[0usize, 0, 1, 3, 4]); // absolute spellings only (cwd differs under cargo)
-            let mut c = json!({"entry": "file", "query": tree.spell(d, "query.graphql", k), "schema": tree.spell(d, "schema.graphql", if rng.chance(2, 3) { 0 } else { k }), "opts": {}});
+            let qf = if rng.chance(1, 4) { "query_b.graphql" } else { "query.graphql" };
+            let mut c = json!({"entry": "file", "query": tree.spell(d, qf, k), "schema": tree.spell(d, "schema.graphql", if rng.chance(2, 3) { 0 } else { k }), "opts": if rng.chance(4, 5) { shared_opts.clone() } else { json!({}) }});
             if rng.chance(1, 4) {
-                c["opts"] = json!({"mode": "derive", "struct_ident": if d == "syn_rec" { "Op" } else { "E" }, "operation_name": if d == "syn_rec" { "Op" } else { "E" }, "response_derives": "Debug"});
+                let op = match (d, qf) {
+                    ("syn_rec", "query.graphql") => "Op",
+                    ("syn_rec", _) => "Oq",
+                    (_, "query.graphql") => "E",
+                    _ => "F",
+                };
+                c["opts"]["mode"] = json!("derive");
+                c["opts"]["struct_ident"] = json!(op);
+                c["opts"]["operation_name"] = json!(op);
             }
             if rng.chance(1, 8) {
                 let role = if rng.chance(1, 2) { "query" } else { "schema" };
@@ -75,7 +93,16 @@ pub struct MiriRun {
 }
 
 pub fn run(sc_threads: &[Vec<Value>], miri_seed: u64, rate: &str, sim_dir: &Path, target: &Path, plan_file: &Path) -> MiriRun {
-    let plan = json!({"threads": sc_threads, "schedule": {"kind": "free"}});
+    // the epilogue repeats every distinct call once, sequentially, after the concurrent phase
+    let mut distinct: Vec<Value> = vec![];
+    for t in sc_threads {
+        for c in t {
+            if !distinct.contains(c) {
+                distinct.push(c.clone());
+            }
+        }
+    }
+    let plan = json!({"threads": sc_threads, "schedule": {"kind": "free"}, "epilogue": distinct});
     if let Err(e) = std::fs::write(plan_file, plan.to_string()) {
         return MiriRun { json: None, error: Some(format!("harness: cannot write plan: {}", e)) };
     }
